@@ -21,6 +21,10 @@ static __thread uint64_t lps_to_end;
 /** FIXME: a wrong high termination time during a speculative trajectory forces the simulation to uselessly continue */
 static __thread simtime_t max_t;
 
+/// The value of lp_ctx.termination_t for a LP whose termination predicate does not hold yet
+/** It must not collide with a legal timestamp: 0 is one (an event at time 0 can be the first to satisfy the predicate) */
+#define TERMINATION_T_NONE (-1.0)
+
 /**
  * @brief Initialize the termination detection module node-wide
  */
@@ -37,7 +41,7 @@ void termination_lp_init(struct lp_ctx *lp)
 {
 	bool term = global_config.committed(lp - lps, lp->state_pointer);
 	lps_to_end += !term;
-	lp->termination_t = term * SIMTIME_MAX;
+	lp->termination_t = term ? SIMTIME_MAX : TERMINATION_T_NONE;
 }
 
 /**
@@ -46,12 +50,12 @@ void termination_lp_init(struct lp_ctx *lp)
  */
 void termination_on_msg_process(struct lp_ctx *lp, simtime_t msg_time)
 {
-	if(lp->termination_t)
+	if(lp->termination_t != TERMINATION_T_NONE)
 		return;
 
 	bool term = global_config.committed(lp - lps, lp->state_pointer);
 	max_t = term ? max(msg_time, max_t) : max_t;
-	lp->termination_t = term * msg_time;
+	lp->termination_t = term ? msg_time : TERMINATION_T_NONE;
 	lps_to_end -= term;
 }
 
@@ -103,6 +107,6 @@ void termination_on_lp_rollback(struct lp_ctx *lp, simtime_t msg_time)
 {
 	simtime_t old_t = lp->termination_t;
 	bool keep = old_t < msg_time || old_t == SIMTIME_MAX;
-	lp->termination_t = keep * old_t;
+	lp->termination_t = keep ? old_t : TERMINATION_T_NONE;
 	lps_to_end += !keep;
 }
